@@ -78,9 +78,51 @@ def relations(R, spec, alg, x, y, outs):
                         f'{nm} fails for a={x}, b={y} in Algebra({algs.describe(spec)}): {l} vs {r}')
 
 
+def noncommutative(R, tier):
+    """coefficients that do not commute: every term of op / ip / lc / rc / sp is (sign) x coefficient-of-a x coefficient-of-b, in that
+    order, on the blades its grade condition selects - whatever the storage order and the relative size of the two key tuples"""
+    import sympy
+    from kingdon import MultiVector
+    rng = R.rng
+    g = lambda k: bin(k).count('1')
+    conds = {'op': lambda r, s_, t: t == r + s_, 'ip': lambda r, s_, t: t == abs(r - s_), 'lc': lambda r, s_, t: t == s_ - r,
+             'rc': lambda r, s_, t: t == r - s_, 'sp': lambda r, s_, t: t == 0}
+    for it in range(6 if tier == 'quick' else 60):
+        d = rng.choice((2, 3))
+        spec = {'sig': [rng.choice((1, -1, 0)) for _ in range(d)]}
+        alg = algs.make_impl(spec)
+        canon = [int(k) for k in alg.canon2bin.values()]
+        ka, kb = rng.sample(canon, rng.randint(1, 4)), rng.sample(canon, rng.randint(1, 4))
+        A_ = [sympy.Symbol('A%d' % i, commutative=False) for i in range(len(ka))]
+        B_ = [sympy.Symbol('B%d' % i, commutative=False) for i in range(len(kb))]
+        x, y = MultiVector.fromkeysvalues(alg, tuple(ka), list(A_)), MultiVector.fromkeysvalues(alg, tuple(kb), list(B_))
+        for opn, cond in conds.items():
+            for form in ('method', 'algebra'):
+                R.count('noncommutative'); R.case(('nc', algs.describe(spec), opn, form, tuple(ka), tuple(kb)), True)
+                want = {}
+                for k1, v1 in zip(ka, A_):
+                    for k2, v2 in zip(kb, B_):
+                        sg = alg.signs[k1, k2]
+                        if sg and cond(g(k1), g(k2), g(k1 ^ k2)):
+                            want[k1 ^ k2] = want.get(k1 ^ k2, 0) + sg * v1 * v2
+                wantx = {int(k): sympy.expand(v) for k, v in want.items() if sympy.expand(v) != 0}
+                try:
+                    r = getattr(x, opn)(y) if form == 'method' else getattr(alg, opn)(x, y)
+                    got = {int(k): sympy.expand(v) for k, v in zip(r.keys(), r.values()) if sympy.expand(v) != 0}
+                except Exception as e:  # noqa
+                    got = f'{type(e).__name__}: {e}'[:100]
+                if got != wantx:
+                    R.violation({'clause': opn, 'basis': algs.kind(spec), 'coefficients': 'noncommutative'},
+                                {'algebra': spec, 'op': opn, 'form': form, 'keys': [ka, kb], 'noncommutative': True},
+                                f'{opn} ({form} form) with non-commuting coefficients {A_} on blades {ka} and {B_} on blades {kb} in Algebra({algs.describe(spec)}) = {got}, '
+                                f'the definition (coefficient of the left operand first) gives {wantx}')
+                    break
+
+
 def run(R, tier):
     warnings.filterwarnings('ignore')
     rng = R.rng
+    noncommutative(R, tier)
     pool = algs.AlgPool()
     cache, cases = {}, []
     for spec, ka, kb, tag in patterns(R, tier):
@@ -135,6 +177,10 @@ def run(R, tier):
 def replay(R, rec):
     warnings.filterwarnings('ignore')
     r = rec['replay']
+    if r.get('noncommutative'):
+        R2 = kv.Run(rec['property'], rec.get('tier', 'quick'), int(rec.get('seed', 1))); R2.findings = []
+        noncommutative(R2, R2.tier)
+        return not getattr(R2, 'all_failures', [])
     alg = algs.make_impl(r['algebra'])
     x, y = [tuple(t) for t in r['x']], [tuple(t) for t in r['y']]
     R2 = kv.Run('C03', 'quick', 0)
